@@ -1867,8 +1867,10 @@ func (this *decodingTask) decode(res *decodingTaskResult) {
 	}
 
 	// After completion of the bitstream reading, increment the block id.
-	// It unblocks the task processing the next block (if any)
-	atomic.StoreInt32(this.processedBlockID, this.currentBlockID)
+	// It unblocks the task processing the next block (if any).
+	// Compare-and-swap: never overwrite the cancel value stored by a task
+	// that failed in the meantime.
+	atomic.CompareAndSwapInt32(this.processedBlockID, this.currentBlockID-1, this.currentBlockID)
 
 	// Check if the block must be skipped
 	if v, hasKey := this.ctx["from"]; hasKey {
